@@ -37,6 +37,12 @@ fn check_cos(x: f64) {
   assert!(c.to_bits() == (-x).cos().to_bits(), "libm contract: cos even at {}", x);
   if x.abs() <= HALF_PI { assert!(c >= TINY, "libm contract: cos >= 2^-55 on [-pi/2, pi/2] at {}", x); }
   if x.abs() >= A && x.abs() <= HALF_PI { assert!(c <= INV_SQRT6_UP, "libm contract: cos on [A, pi/2] at {}", x); }
+  // A0 = fl(fl(next(T) / 2) + pi/4), the smallest argument proj evaluates in a polar cap: cos <= fl(1/sqrt 6) there
+  // (true value at A0: fl(1/sqrt 6) - 2.1 ulp; cos decreases), so that SQRT6 * cos rounds to <= 1
+  if x.abs() >= 1.1502619915109316 && x.abs() <= HALF_PI {
+    assert!(c <= 0.4082482904638631, "libm contract: cos on [A0, pi/2] at {}", x);
+    assert!(2.44948974278317809819_f64 * c <= 1.0, "libm contract: SQRT6 * cos <= 1 on [A0, pi/2] at {}", x);
+  }
 }
 fn check_asin(z: f64) {
   let r = z.asin();
@@ -57,7 +63,7 @@ fn check_acos(z: f64) {
 }
 
 pub fn validate(seed: u64) {
-  let specials = [0.0, -0.0, T, -T, HALF_PI, -HALF_PI, PI, -PI, A, -A, 1.0, -1.0, TWO_THIRD_UP, 2.0 / 3.0, INV_SQRT6_UP, 0.4082482904638631,
+  let specials = [0.0, -0.0, T, -T, HALF_PI, -HALF_PI, PI, -PI, A, -A, 1.1502619915109316, -1.1502619915109316, 1.0, -1.0, TWO_THIRD_UP, 2.0 / 3.0, INV_SQRT6_UP, 0.4082482904638631,
                   T / 2.0 + PI / 4.0, 1e-300, -1e-300, 5e-324, 25.2, -25.2, 1e-8, 0.5, 2.0, 1.0000000000000002, f64::INFINITY];
   for &s in specials.iter() {
     for k in -16i64..=16 {
